@@ -300,9 +300,12 @@ func genConstExprSmall(t *rapid.T) (string, int64) {
 	}
 }
 
-func genDataOp(t *rapid.T, dir string, labels []string, first bool) DataOp {
+func genDataOp(t *rapid.T, dir string, labels []string, first bool, equs []DataOp) DataOp {
 	k := rapid.IntRange(0, 9).Draw(t, "opk")
 	switch {
+	case k == 6 && len(equs) > 0:
+		// an EQU constant defined earlier, used as it stands (its value is the model's value)
+		return equs[rapid.IntRange(0, len(equs)-1).Draw(t, "equref")]
 	case k <= 3:
 		var v int64
 		if rapid.Bool().Draw(t, "vb") {
@@ -333,11 +336,12 @@ func genDataOp(t *rapid.T, dir string, labels []string, first bool) DataOp {
 
 var propC05 = &Prop[DataCase]{
 	ID:   "C05",
-	Rule: "programs of data directives: DB/DW/DD with 1..64 operands mixing numbers (negative, boundary, out of range), constant expressions, strings (ASCII and UTF-8 text) and single characters (DB), earlier labels and $; RESB n and RESB addr-$; ALIGNB n; interleaved EQU, labels, GLOBAL/EXTERN and bracket directives, and up to two out-of-reach Jcc lines that force a second assembly round; ORG aligned and unaligned; oracle: reference model of the directives written from the property text (little-endian low bits, strings byte for byte, n zeros, minimal padding of the address), plus location counter = bytes emitted; non-trivial = accepted and a list of >= 2 operands, a string, an expression or padding; distinct by source text. The enumeration is the complete ALIGNB grid (7 units x 64 residues x 4 origins).",
+	Rule: "programs of data directives: DB/DW/DD with 1..64 operands mixing numbers (negative, boundary, out of range), constant expressions, strings (ASCII and UTF-8 text) and single characters (DB), earlier labels, earlier EQU constants and $; RESB n and RESB addr-$; ALIGNB n; interleaved EQU, labels, GLOBAL/EXTERN and bracket directives, and up to two out-of-reach Jcc lines that force a second assembly round; ORG aligned and unaligned; oracle: reference model of the directives written from the property text (little-endian low bits, strings byte for byte, n zeros, minimal padding of the address), plus location counter = bytes emitted; non-trivial = accepted and a list of >= 2 operands, a string, an expression or padding; distinct by source text. The enumeration is the complete ALIGNB grid (7 units x 64 residues x 4 origins).",
 	Gen: func(t *rapid.T) DataCase {
 		c := DataCase{Org: rapid.SampledFrom([]int64{-1, 0, 0x100, 0x7c00, 0x7c01, 0xc203, 0xfffc, 0x10000, 0x280000}).Draw(t, "org"), Mode: rapid.SampledFrom([]int{0, 16, 32}).Draw(t, "mode")}
 		used := map[string]bool{}
 		var labels []string
+		var equs []DataOp
 		nwiden := 0
 		n := rapid.IntRange(1, 10).Draw(t, "nlines")
 		for i := 0; i < n; i++ {
@@ -350,7 +354,7 @@ var propC05 = &Prop[DataCase]{
 				}
 				l := DataLine{Kind: dir}
 				for j := 0; j < m; j++ {
-					l.Ops = append(l.Ops, genDataOp(t, dir, labels, j == 0))
+					l.Ops = append(l.Ops, genDataOp(t, dir, labels, j == 0, equs))
 				}
 				c.Lines = append(c.Lines, l)
 			case k == 7:
@@ -376,8 +380,13 @@ var propC05 = &Prop[DataCase]{
 				nwiden++
 			case k == 10:
 				nm := genName(t, "equn", used)
-				txt, _ := genConstExprSmall(t)
+				txt, val := genConstExprSmall(t)
+				if rapid.Bool().Draw(t, "equbig") {
+					val = rapid.SampledFrom([]int64{0x1234, 0x12345678, 0xff, 0x100, 0xffff, 0x10000, -1, -256, 0x80}).Draw(t, "equbigv")
+					txt = renderImm(val, 1)
+				}
 				c.Lines = append(c.Lines, DataLine{Kind: "equ", Name: nm, Text: txt})
+				equs = append(equs, DataOp{Kind: "num", Val: val, Text: nm})
 			case k == 11:
 				d := rapid.SampledFrom([]string{"\tGLOBAL %s", "\tEXTERN %s", "[SECTION .text]", "[INSTRSET \"i486p\"]", "[FILE \"data.nas\"]", "[OPTIMIZE 1]"}).Draw(t, "dirt")
 				if strings.Contains(d, "%s") {
